@@ -135,12 +135,13 @@ func c16Sequence(r *rep.Reporter, kind string, si int, fixed time.Time, bases []
 	H := mk(drv.Opts{HostBucket: true})
 	HB := mk(drv.Opts{HostBases: bases})
 	// nested bases, in either order: every '<label>.<base>' of every base must be honoured
-	nested := []string{"example.net", "s3.example.net", "eu.s3.example.net:8443"}
+	// (first labels that sort before and after the shorter base's: api < example < s3)
+	nested := []string{"example.net", "s3.example.net", "eu.s3.example.net:8443", "api.example.net"}
 	if si%2 == 1 {
-		nested = []string{"eu.s3.example.net:8443", "s3.example.net", "example.net"}
+		nested = []string{"api.example.net", "eu.s3.example.net:8443", "s3.example.net", "example.net"}
 	}
 	if si%3 == 2 {
-		nested = []string{"s3.example.net", "example.net", "eu.s3.example.net:8443"}
+		nested = []string{"s3.example.net", "example.net", "api.example.net", "eu.s3.example.net:8443"}
 	}
 	HBN := mk(drv.Opts{HostBases: nested})
 	defer HBN.Close()
